@@ -2,7 +2,7 @@
    run h      : the model of RegisteredDecoys after the history h (C08/Model.v)
    ghost h k  : the life of registration k as a function of the history alone
                 (age since the first Track of the current life, used flag)          *)
-From CJ Require Import Common.Base C08.Model C08.Proofs C08.Invariant C08.Sweep C08.History C08.Bounded C08.Counters C08.Stats C08.ModelConn C08.Conn.
+From CJ Require Import Common.Base C08.Model C08.Proofs C08.Invariant C08.Sweep C08.History C08.Bounded C08.Counters C08.Stats C08.ModelConn C08.Conn C08.Capped.
 
 (* The table agrees with the per-registration specification after every history. *)
 Theorem C08_refines_spec :
@@ -247,3 +247,28 @@ Theorem C08_conn_never_late :
                                          hage h1 k = Some a1 /\ a = a1 + helapsed h2)).
 Proof. exact conn_never_late. Qed.
 Print Assumptions C08_conn_never_late.
+
+(* ---- fifth round: scale.  The sweep removes EVERY record older than its lifetime from a table of ANY size (s ranges over
+   all well-formed tables; `run h` is one for every history h): what still has a timeout record after the sweep had it before
+   and is within its lifetime, and no expired record is left. *)
+Theorem C08_sweep_any_size :
+  forall s, Inv s ->
+    (forall key t, aget tkey_eqb key (timeouts (sweep s)) = Some t ->
+       aget tkey_eqb key (timeouts s) = Some t /\ kept (now s - t_born t) (t_used t) = true) /\
+    length (get_expired (sweep s)) = 0%nat.
+Proof. exact (fun s I => conj (sweep_any_size s I) (sweep_any_size_count s I)). Qed.
+Print Assumptions C08_sweep_any_size.
+
+(* Refuted variant: a sweep that handles at most n expired records (a batch limit) equals the sweep on every table with at
+   most n expired records - and on EVERY table with more it leaves a record that is older than its lifetime with its
+   timeout record and its entry in the phantom's map (still tracked, still matching) after the sweep. *)
+Theorem C08_sweep_capped_refuted :
+  forall n s, Inv s ->
+    ((length (get_expired s) <= n)%nat -> sweep_capped n s = sweep s) /\
+    ((n < length (get_expired s))%nat ->
+       exists key t, aget tkey_eqb key (timeouts (sweep_capped n s)) = Some t /\
+                     kept (now (sweep_capped n s) - t_born t) (t_used t) = false /\
+                     get2 (decoys (sweep_capped n s)) (fst key) (snd key) = get2 (decoys s) (fst key) (snd key) /\
+                     is_some (get2 (decoys (sweep_capped n s)) (fst key) (snd key)) = true).
+Proof. exact (fun n s I => conj (sweep_capped_small n s) (sweep_capped_late n s I)). Qed.
+Print Assumptions C08_sweep_capped_refuted.
